@@ -371,3 +371,46 @@ Lemma timeout_now_sets_transfer_flag :
 Proof.
   intros s H. unfold on_timeout_now_request. rewrite H. cbn. auto.
 Qed.
+
+(* ---------------------------------------------------------------- the statements as first written are refutable *)
+Module Refutations.
+Definition opt0 := mkOptions false false false 0 0 [].
+Definition rp0 (id m : N) := mkRepl id m false true 0 None 0 m (m+1) m 0 true 0 None.
+
+(* a transfer record that names the leader itself, and a replication to itself (neither ever exists) *)
+Definition c3 := mkConfig [mkNode 1 [1] true [] 0; mkNode 2 [2] true [] 0] 1 1.
+Definition l3 := mkLdr true true 2 1 [] [rp0 1 4; rp0 2 0] true 3 1 false false 9 [] 0.
+Definition s3 := (fresh_node 1 1) <| st_latest := c3 |> <| st_committed := c3 |> <| st_lastidx := 4 |>
+                                  <| st_role := Leader |> <| st_ldr := Some l3 |>.
+
+Lemma transfer_target_eligible_original_false :
+  ~ (forall opt s s' out t l,
+      try_transfer opt s = Done (s', out) -> st_ldr s = Some l -> In (MTimeoutNow t) (lo_msgs out) ->
+      t <> st_nid s /\ is_voter (st_latest s) t = true /\
+      exists rp, find_repl t (ld_repls l) = Some rp /\ rp_match rp = st_lastidx s /\ rp_nocontact rp = false).
+Proof.
+  intros H.
+  destruct (try_transfer opt0 s3) as [[s' out]|] eqn:E; [|vm_compute in E; discriminate].
+  specialize (H _ _ _ _ 1 l3 E eq_refl).
+  vm_compute in E. injection E as _ E. subst out.
+  destruct H as [H _]; [left; reflexivity | apply H; reflexivity].
+Qed.
+
+(* a leader whose own id is 0: target 0 means "any node" and is not refused *)
+Definition c4 := mkConfig [mkNode 0 [1] true [] 0; mkNode 2 [2] true [] 0] 1 1.
+Definition l4 := mkLdr true true 2 1 [] [rp0 2 4] false 0 0 false false 0 [] 0.
+Definition s4 := (fresh_node 1 0) <| st_latest := c4 |> <| st_committed := c4 |> <| st_lastidx := 4 |>
+                                  <| st_role := Leader |> <| st_ldr := Some l4 |>.
+
+Lemma transfer_validation_original_false :
+  ~ (forall opt s tid target l,
+      st_ldr s = Some l -> tid <> 0 ->
+      (ld_tr_active l = true \/ num_voters (st_latest s) = 1 \/ target = st_nid s \/
+       (target <> 0 /\ is_voter (st_latest s) target = false)) ->
+      exists r, on_transfer opt s tid target = Done (s, mkOut [(tid, r)] []) /\ r <> RpNil).
+Proof.
+  intros H.
+  destruct (H opt0 s4 5 0 l4 eq_refl) as (r & E & _); [discriminate | right; right; left; reflexivity |].
+  vm_compute in E. discriminate.
+Qed.
+End Refutations.
